@@ -1178,6 +1178,20 @@ class C09(L1Prop):
         # under another client id
         from .props_http import interleaved_upload_cases
         out += interleaved_upload_cases("c09", rng, sizes(tier, 12, 100))
+        # clients the server has never seen, whose ids share one half / all but one bit / the reversed bytes with client 1's id,
+        # ask for their history and snapshot between client 1's requests; and the other client uploads 64 MiB and more
+        for k in range(sizes(tier, 6, 24)):
+            near = 2010 + k % 6
+            ops = ["ensure 1", "av 1 nil b:1", "av 1 latest:1 b:2", "as 1 latest:1 b:9"]
+            for step in range(3):
+                ops += [f"gcv {near} nil", f"gs {near}", f"gcv {near} latest:1", "gcv 1 anc:1:1", "gs 1", f"av 1 latest:1 b:3,{step}", f"gcv {near} nil", "gcv 1 nil", "gs 1",
+                        f"as {near} latest:1 b:8", "gcv 1 latest:1"]
+            out.append(Case(f"c09-near-{k}", ops, {"nclients": 2}))
+        for k in range(sizes(tier, 1, 3)):
+            nb = [67108864, 83886080, 104857600][k]
+            ops = ["ensure 1", "ensure 2", "av 1 nil b:1", "av 2 nil b:2", f"av 2 latest:2 z:{nb}:5", "av 1 latest:1 b:3", "gcv 1 nil", f"as 2 latest:2 z:{nb}:6", "av 1 latest:1 b:4",
+                   "as 1 latest:1 b:9", "gs 1", "gcv 1 anc:1:1"]
+            out.append(Case(f"c09-huge-{k}", ops, {"nclients": 2, "huge": True}))
         # over HTTP, two-run: client 1's requests with client 2 active in between — quoting client 1's version ids
         # in its own uploads (also BEFORE client 1 uses them), breaking off large uploads (hundreds of megabytes in
         # total), being refused in every way — and client 1's requests alone
@@ -1256,6 +1270,10 @@ class C09(L1Prop):
                 if h.route == "av" and r.status == 409 and r.xp.isdigit() and r.xp not in mine.get(h.cid, set()):
                     fails.append(f"op {i}: client {h.cid} was told the latest version is {r.xp}, which belongs to another client")
             return fails
+        if case.meta.get("huge"):
+            # every request of client 1 is an ordinary one on its own small history: each is served
+            return [f"op {i} `{o[:60]}` of client 1 was answered `{ri[:40]}` after the other client's large upload"
+                    for i, (o, ri, rm) in enumerate(trace) if Op(o).kind in ("av", "gcv", "as", "gs") and Op(o).c == 1 and resp_kind(ri) in ("error", "panic", "noclient")]
         if case.meta.get("hx"):
             return []
         if case.meta.get("http"):
@@ -1264,6 +1282,8 @@ class C09(L1Prop):
         return []
     def derive(self, case, trace, backend):
         """one solo case per client: its own requests, foreign ids replaced by arbitrary fixed ids"""
+        if case.meta.get("huge"):
+            return []        # (payloads of this size are known to the trace by a token only: no solo re-run; see the oracle)
         if case.meta.get("hx"):
             # client 1 alone: its own requests; ids of the other client become arbitrary fixed ids
             import re as _re
@@ -1447,6 +1467,14 @@ class C10(L1Prop):
                         ops += [f"av 1 latest:1 b:{i}" for i in range(spos + 1, n)]
                         ops += ["dump 1", f"rowfault anc:1:{dmg} {2 + dmg}", f"as 1 ver:1:{t} b:200,{t}", "dump 1", "gs 1"]
                         out.append(Case(f"c10-rowfault-{k}", ops, {"only": "sqlite", "faults": True})); k += 1
+        # acceptance depends on the version alone: uploads whose content is empty (the library accepts them), one byte, megabytes
+        for k2 in range(sizes(tier, 4, 12)):
+            n = 3 + k2 % 3
+            ops = ["ensure 1"] + [f"av 1 {'nil' if i == 0 else 'latest:1'} b:{i}" for i in range(n)]
+            for back, pl in ((2, "e"), (1, ["e", "b:0", "z:1048576:3", "b:7"][k2 % 4]), (0, "e"), (0, "b:1")):
+                ops += ["dump 1", f"as 1 anc:1:{back} {pl}", "dump 1", "gs 1"]
+            ops += ["av 1 latest:1 b:9", "dump 1", "as 1 latest:1 e", "dump 1", "gs 1", "reopen", "gs 1"]
+            out.append(Case(f"c10-content-{k2}", ops))
         # a storage step of an ACCEPTABLE upload fails (the write of the snapshot, the commit): the client is
         # told so — or the snapshot is replaced; never "success" with the old snapshot still in place
         for k2 in range(sizes(tier, 6, 24)):
